@@ -820,10 +820,8 @@ class CallMixin:
                 if kind == 'dict':
                     kd, dd = self._dd(st, v)
                     kv, dv = self._dv(st, v)
-                    kc, dc = self._dc(st)
                     self.heap_set(st, kd, z3.Store(dd, v.t, z3.Const(fresh_name('hv_dom'), z3.ArraySort(sort_of(v.k), Bo))))
                     self.heap_set(st, kv, z3.Store(dv, v.t, z3.Const(fresh_name('hv_val'), z3.ArraySort(sort_of(v.k), sort_of(v.v)))))
-                    self.heap_set(st, kc, z3.Store(dc, v.t, z3.Int(fresh_name('hv_card'))))
                 else:
                     self.list_store(st, v, z3.Int(fresh_name('hv_len')), z3.Const(fresh_name('hv_arr'), z3.ArraySort(I, sort_of(v.e))))
         finally:
